@@ -813,6 +813,23 @@ def run_c18(ctx):
                             {"m": "remove_node", "args": [origins[pos]]}, {"m": "diff", "args": [1]}, {"m": "diff_text", "args": [1]},
                             {"m": "to_string", "args": []}, {"m": "edge_size", "args": []}]
                     cs.append({"id": "edgeorder-%03d" % k, "api": "graph", "nid": 1, "ops": ops}); k += 1
+    # many incoming edges, a node removed from the middle, then every remaining pair added again (a no-op: at most
+    # one edge per ordered pair), in several insertion orders
+    for n_in in (3, 4, 5, 6):
+        for order in range(3):
+            for victim in range(n_in):
+                origins = list(range(1, n_in + 1))
+                if order == 1: origins.reverse()
+                if order == 2: origins = origins[1::2] + origins[0::2]
+                d = n_in + 1
+                ops = [{"m": "add_node", "args": [i % 3]} for i in range(n_in + 1)]
+                ops += [{"m": "add_edge", "args": [o, d, W[i % 5]]} for i, o in enumerate(origins)]
+                ops += [{"m": "remove_node", "args": [origins[victim]]}, {"m": "edge_size", "args": []}]
+                rest = [o for o in origins if o != origins[victim]]
+                ops += [{"m": "add_edge", "args": [o, d, W[4]]} for o in rest]
+                ops += [{"m": "edge_size", "args": []}, {"m": "node_size", "args": []}] + [{"m": "get_weight", "args": [o, d]} for o in origins]
+                ops += [{"m": "remove_edge", "args": [rest[0], d]}, {"m": "edge_size", "args": []}, {"m": "get_weight", "args": [rest[0], d]}, {"m": "to_string", "args": []}]
+                cs.append({"id": "fanin-%03d" % k, "api": "graph", "nid": 1, "ops": ops}); k += 1
     run_events(ctx, "graph_histories", cs, spec="TraceApi")
     if not q:
         # every history of any length on two nodes: the complete (finite) state space, invariants only
